@@ -129,6 +129,14 @@ def rule2_detachstate(ctx, fl):
     ctx.ob('C13.2', 'myth_create_ex_body: detachstate decides detached', flow,
            'a thread created with a non-zero detach-state gets detached != 0 (so the finisher releases its record)',
            loc=(lds[0].loc if lds else f.loc))
+    # ... on both creation orders: the store is not confined to one of the two publication paths
+    from .c01 import publication_events
+    pubs = publication_events(f)
+    setters = [s for s in sts if (const_int(s.ops[0]) not in (None, 0)) or const_int(s.ops[0]) is None]
+    okboth = bool(setters) and len(pubs) >= 2 and all(any(f.can_reach(s, p_) for s in setters) for p_ in pubs)
+    ctx.ob('C13.2', 'myth_create_ex_body: detachstate is applied before the thread is published on either creation order', okboth,
+           'the detached flag is set before the switch of the child-first path and before the push of the parent-first path', loc=f.loc,
+           detail='%d publication events' % len(pubs))
     zero = [s for s in sts if const_int(s.ops[0]) == 0]
     ctx.ob('C13.2', 'myth_create_ex_body: joinable by default', len(zero) >= 1,
            'the flag is reset to joinable for a recycled record', loc=f.loc)
@@ -319,21 +327,39 @@ def run(ctx):
         ctx.attempt(rule4_timed, ctx, v)
         ctx.attempt(rule5_finisher, ctx, fl)
         from . import c12
+        from . import c01
+        with ctx.shared({'C01.6': 'C13.9'}, keep=lambda k: k.startswith(('myth_entry_point_1', 'myth_entry_point_2')), floor=6,
+                        doc='the exit callbacks leave the record unlocked (shared with C01.6): a detached thread that recycles its record '
+                            'with the spin lock held makes the next thread created on that record spin forever at its own exit'):
+            stops01 = ('myth_queue_push', 'myth_queue_pop', 'get_new_myth_thread_struct_desc', 'get_new_myth_thread_struct_stack', DESC_FREE,
+                       'free_myth_thread_struct_stack', 'myth_get_current_env_noinline', 'myth_tls_tree_fini', 'myth_init_ex_body',
+                       'myth_entry_point_cleanup') + lib.SPIN_STOPS
+            v01 = ctx.view(NATIVE, roots=['myth_create_ex_body', 'myth_create_1', 'myth_entry_point', 'myth_exit_body', 'myth_testcancel_body',
+                                          'myth_join_body', 'myth_tryjoin_body', 'myth_join_2', 'myth_join_3', 'myth_entry_point_cleanup',
+                                          'myth_entry_point_1', 'myth_entry_point_2'], stops=stops01, flavour=fl)
+            ctx.attempt(c01.rule6_finish, ctx, v01)
         ctx.doc('C13.7', 'the reaping entry points do not use a worker env obtained before they blocked (stale-value dataflow, shared with '
                 'C12.3): a record released to the free list of the worker the joiner started on is never found again by the worker '
                 'that allocates, so create/reap cycles grow without bound')
         ctx.attempt(c12.rule3_env, ctx, fl, rule='C13.7', only=['myth_join', 'myth_tryjoin', 'myth_timedjoin', 'myth_detach'], units=[(NATIVE, None)])
-        with ctx.shared({'C12.4': 'C13.8'}, keep=lambda k: k.startswith(('alloc:', 'free:', 'alloc and free')), floor=12,
+        with ctx.shared({'C12.4': 'C13.8'}, keep=lambda k: k.startswith(('alloc:', 'free:', 'alloc and free', 'create: th->stack')), floor=13,
                         doc='reaping recycles the stack (shared with C12.4): the release reads the block size the allocation wrote into the '
                             'stack header, so a custom-size stack returns to the size class it will be taken from again'):
             v2 = ctx.view(NATIVE, roots=['get_new_myth_thread_struct_stack', c12.STACK_FREE, 'myth_flmalloc', 'myth_flfree'],
                           stops=('myth_freelist_pop', 'myth_freelist_push', 'myth_mmap'), flavour=fl)
             ctx.attempt(c12.rule4_affine, ctx, v2)
+            v4 = ctx.view(NATIVE, roots=['myth_create_ex_body'],
+                          stops=('myth_queue_push', 'myth_queue_pop', 'get_new_myth_thread_struct_desc', 'get_new_myth_thread_struct_stack',
+                                 'myth_init_ex_body', 'myth_make_context_empty', 'myth_make_context_voidcall') + lib.SPIN_STOPS, flavour=fl)
+            ctx.attempt(c12.rule4_custom_data, ctx, v4)
 
 
 SCHED = 'src/myth_sched_func.h'
 WRAP = 'src/myth_wrap_pthread.c'
 MUTANTS = [
+    {'name': 'detach-state attribute applied on the child-first path only (seed4 C13/m3)', 'expect': 'C13.2',
+     'edits': [(SCHED, "  if (attr && attr->detachstate) {\n    /* created detached: the finisher releases the descriptor */\n    new_thread->detached = 1;\n  }\n  new_thread->result = arg;", "  new_thread->result = arg;"),
+               (SCHED, "    myth_make_context_empty(&new_thread->context, stk, stk_size);\n", "    myth_make_context_empty(&new_thread->context, stk, stk_size);\n    if (attr && attr->detachstate) new_thread->detached = 1;\n")]},
     {'name': 'native myth_tryjoin forwards to the blocking join', 'expect': 'C13.6',
      'edits': [('src/myth_if_native.c', "  return myth_tryjoin_body(th, result);", "  return myth_join_body(th, result);")]},
     {'name': 'timedjoin tests the deadline after a try it has not examined (seed3 C01/m2)', 'expect': 'C13.4',
